@@ -1,6 +1,8 @@
 package main
 
 import (
+	"strconv"
+	"syscall"
 	"flag"
 	"fmt"
 	"os"
@@ -180,6 +182,7 @@ func cmdExecSpec(args []string) {
 		fmt.Fprintln(os.Stderr, err)
 		os.Exit(2)
 	}
+	reexecWithGoMaxProcs(spec)
 	st := NewStats()
 	v := executeSpec(spec, st)
 	if len(st.Trouble) > 0 {
@@ -207,6 +210,7 @@ func cmdReplay(args []string) {
 		fmt.Fprintln(os.Stderr, "cannot load replay file:", err)
 		os.Exit(2)
 	}
+	reexecWithGoMaxProcs(spec)
 	want := spec.Class
 	wantEv := spec.EventsSha
 	fmt.Printf("replaying %s: property=%s engine=%s class=%s verif_seed=%d run=%d run_seed=%s\n", args[0], spec.Property, spec.Engine, want, spec.VerifSeed, spec.Run, spec.RunSeed)
@@ -243,4 +247,26 @@ func cmdReplay(args []string) {
 	}
 	fmt.Printf("VIOLATION property=%s replay=%s\n", spec.Property, args[0])
 	os.Exit(1)
+}
+
+// reexecWithGoMaxProcs: a replay runs with the GOMAXPROCS of the process that found the
+// violation FROM THE START of the process, not only from executeSpec on: what the code under
+// test sizes by runtime.GOMAXPROCS at package initialisation (the package-level default
+// instance, say) is otherwise sized differently in the replay. The process replaces itself
+// once, with GOMAXPROCS in its environment.
+func reexecWithGoMaxProcs(spec *RunSpec) {
+	if spec.GoMaxProcs <= 0 {
+		return
+	}
+	want := strconv.Itoa(spec.GoMaxProcs)
+	if os.Getenv("GOMAXPROCS") == want {
+		return
+	}
+	self, err := os.Executable()
+	if err != nil {
+		return
+	}
+	env := append([]string{}, os.Environ()...)
+	env = append(env, "GOMAXPROCS="+want)
+	_ = syscall.Exec(self, os.Args, env) // on failure: carry on in this process
 }
